@@ -316,6 +316,25 @@ func buildTranscoder(sc *Scenario, fresh bool) (*vanguard.Transcoder, error) {
 	return t, nil
 }
 
+// asciiFold replaces every maximal run of non-ASCII bytes by one '?': JSON transport replaces
+// invalid UTF-8 by U+FFFD, so such bytes are not comparable one to one.
+func asciiFold(s string) string {
+	var out []byte
+	run := false
+	for i := 0; i < len(s); i++ {
+		if s[i] >= 0x80 {
+			if !run {
+				out = append(out, '?')
+			}
+			run = true
+			continue
+		}
+		run = false
+		out = append(out, s[i])
+	}
+	return string(out)
+}
+
 func canonHeaders(h http.Header, skip func(string) bool) string {
 	keys := make([]string, 0, len(h))
 	for k := range h {
@@ -327,13 +346,13 @@ func canonHeaders(h http.Header, skip func(string) bool) string {
 	if len(keys) == 0 {
 		return "-"
 	}
-	sort.Strings(keys)
+	sort.Slice(keys, func(i, j int) bool { return asciiFold(keys[i]) < asciiFold(keys[j]) })
 	var sb strings.Builder
 	for i, k := range keys {
 		if i > 0 {
 			sb.WriteByte(';')
 		}
-		sb.WriteString(hs(k))
+		sb.WriteString(hs(asciiFold(k)))
 		sb.WriteByte('=')
 		vals := h[k]
 		if k == "Trailer" {
@@ -344,7 +363,7 @@ func canonHeaders(h http.Header, skip func(string) bool) string {
 			if j > 0 {
 				sb.WriteByte(',')
 			}
-			sb.WriteString(hs(v))
+			sb.WriteString(hs(asciiFold(v)))
 		}
 	}
 	return sb.String()
